@@ -48,6 +48,16 @@ CLAIMED = {
     'C15': ('5 C15, 3.2, 3.8, 3.11',
             '(a) RbqlEngine with a fault plan (the leaf writer refuses from call k, k = every index) over 9 query shapes: TLC proves prefix output, the writer-protocol monitor (set_header once and first, no write after FALSE, finish exactly once iff success) and promptness (no pull after a refusal); replayed with a user writer returning False at k; (b) the real CSVWriter over a stream raising BrokenPipeError at every stream.write index: no exception, emitted text = prefix of the fault-free text, monitors judged by TLC; (c) Utf8.tla (incremental decoder = declarative decoder under every partition) model-checked, every byte string within the bound delivered to the real reader under every partition x chunk sizes, verdict by TLC (BadByteTrace: invalid => IO-handling error, valid => RefRead of the decoded text); (d) Frontends.tla (query_csv life-cycle, every raising point) model-checked for "terminated => no open handle", 26 query_csv scenarios recorded through a replaced rbql_csv.open and judged by TLC (FrontendTrace), /proc/self/fd as second witness.',
             'Bounds: tables <= 2-3 records, byte strings <= 3-4 bytes over 15 byte values; a broken pipe is an exception-raising stream, not an OS pipe.', 'TLA+ engine spec with fault plan + UTF-8 decoder machine + front-end life-cycle machine model-checked by TLC; fault-point enumeration replayed into the code; TLC trace validation'),
+
+    'C03': ('5 C03, 3.2',
+            'Same machinery over aggregate families: the 9 aggregates (3 spellings, COUNT(*)/COUNT(1)/COUNT(x), expression arguments), group keys, constants and non-constant columns x {no GROUP BY, 1-2 keys} x WHERE x TOP over tables with a numeric column in one presentation (numeric strings incl. "1.5", ints, floats); the machine models first-record discovery of aggregate columns and per-key accumulation, Ref states each aggregate declaratively over exact rationals (population variance = mean of squares - square of mean, even/odd medians, ANY_VALUE as the set of admissible values); misuse (aggregates under ORDER BY / DISTINCT) and builtin min/max/sum with several arguments; replay compares floats with the exact rational within 1e-9 relative.',
+            ENG_NOTE + ' Numeric cells are unsigned decimals; the int-vs-float type of a result is not asserted.', ENG_TECH),
+    'C06': ('5 C06, 3.2, 3.11',
+            'Lists and rbql-js arrays: TLC-emitted engine cases (SELECT incl. star forms / EXCEPT, UPDATE, joins, parse-error and runtime-error paths) replayed with deep snapshots compared at every writer event and identity tests of every written row, judged by the TLC monitors no_alias / sources (EngineTrace); the spec carries the action property SourcesUnchanged and the mutant alias_up_fields. pandas: the same cases as dataframes compared before/after. sqlite: hostile identifiers (all strings <= 3 over 9 characters plus injection strings) as join table in the query text and as table name; every SQL statement logged with set_trace_callback and judged by the SqlOk monitor of Frontends.tla via TLC, database file hashed. CSV files: 26 query_csv scenarios, hashes and open modes judged by the FdOk monitor.',
+            'Identity (`is` / ===) and deep equality are the witnesses; bounds as for the engine families.', 'TLA+ engine spec (SourcesUnchanged action property) + front-end monitors checked by TLC; replay with snapshots; TLC-judged statement and file-handle logs'),
+    'C19': ('5 C19, 3.2',
+            'The TLC-emitted cases of the C01-C05, C07, C03 and C14 families (restricted to expressions that mean the same in both languages) rendered into JavaScript syntax and run through rbql-js query_table in a node batch driver; rows, header, error class and record number compared with Ref; caller arrays snapshotted and compared, output rows tested for identity with input rows.',
+            ENG_NOTE + ' Expressions whose meaning differs between the languages (None + str, int("1.5")) are excluded from the JS families; the module-global query context of rbql-js (concurrent queries) is a documented limitation and not claimed.', ENG_TECH),
 }
 
 PENDING_REASON = 'check not built yet in this session (specification work in progress; see DESIGN.md section 5 for the plan)'
